@@ -242,6 +242,7 @@ class World(object):
         self.rest_log = []
         self.boots = 0
         bootstrap.FILE_CLOCK.n = 0
+        bootstrap.FILE_CLOCK.tick = not self.cfg.get("coarse_clock", False)
         self.boot()
 
     # ------------------------------------------------------------------ logging
@@ -341,7 +342,25 @@ class World(object):
                 agent.check_msg_config()
                 if c["rotate_bytes"] is not None:
                     CONF.message.write_msg_max_size = c["rotate_bytes"]
-                self.handler = DefaultHandler()
+                world = self
+
+                class ObservedDefaultHandler(DefaultHandler):
+                    """The real DefaultHandler; every reporting callback is noted at the handler
+                    interface first (what the session layer reported), then runs unchanged."""
+
+                def _wrap(name):
+                    orig = getattr(DefaultHandler, name)
+
+                    def method(self_, *a, **kw):
+                        world.note("h", name)
+                        return orig(self_, *a, **kw)
+                    method.__name__ = name
+                    return method
+                for _n in ("on_update_error", "update_received", "keepalive_received", "send_open", "open_received",
+                           "route_refresh_received", "notification_received", "on_connection_lost",
+                           "on_connection_failed"):
+                    setattr(ObservedDefaultHandler, _n, _wrap(_n))
+                self.handler = ObservedDefaultHandler()
             else:
                 self.handler = make_rec_handler(self)
             agent.prepare_twisted_service(self.handler)
@@ -443,7 +462,7 @@ class World(object):
             dc = [c for c in due if c.kind == "thread"][0]
         if dc.time > self.reactor.now:
             self.reactor.now = dc.time
-        self.note("fire", dc.kind, dc.name())
+        self.note("fire", dc.kind, dc.name(), dc.seq)
         self._enter("timer:" + dc.name(), 0, self.reactor.run_call, dc)
         return True
 
@@ -540,6 +559,12 @@ class World(object):
             pair = (user, pw + "x")
         elif cred == "empty":
             pair = ("", "")
+        elif cred == "unknown_nopw":
+            pair = (user + "x", "")
+        elif cred == "known_nopw":
+            pair = (user, "" if pw != "" else "x")
+        elif cred == "case":
+            pair = (user.upper() if user.upper() != user else user.lower(), pw)
         else:
             pair = None
         if pair is not None:
@@ -564,6 +589,19 @@ class World(object):
         self.rest_log.append((len(self.log), method, path, cred, res.get("status"), res.get("json")))
         self.note("rest", method, path, cred, res.get("status"), canon(res.get("json")))
         self.last_rest = res
+        return True
+
+    def op_hqueue(self, kind="notification", arg=None):
+        """The application handler pushes a message on its internal queue (BaseHandler.inter_mq); yabgp
+        sends it when the next KEEPALIVE (not the first of the connection) arrives."""
+        if self.exited or self.handler is None:
+            return False
+        if kind == "notification":
+            self.handler.inter_mq.put({"type": "notification", "msg": {"error": 6, "sub_error": int(arg or 4), "data": b""}})
+        else:
+            self.handler.inter_mq.put({"type": "update", "msg": {"attr": {1: 0, 2: [], 3: "10.0.0.1", 5: 100},
+                                                              "nlri": ["10.77.%d.0/24" % int(arg or 1)], "withdraw": []}})
+        self.note("hqueue", kind)
         return True
 
     def op_hfail(self, n=1):
